@@ -17,11 +17,11 @@ ASSUMPTIONS = ["an upload error reply makes the library raise by design; the rai
                "small generation batches (the statement's quantifier); the production batch (812) is used in a few thorough histories",
                "histories are sampled"]
 REQUIRED = ["histories", "checkpoints", "uploads_seen", "keys_offered", "keys_confirmed", "unconfirmed_uploads", "reoffers_seen",
-            "keys_consumed", "replays", "restarts", "signatures_verified", "error_replies", "overlap_cases", "other_requests_during_upload", "signed_prekey_checks"]
+            "keys_consumed", "replays", "restarts", "signatures_verified", "error_replies", "overlap_cases", "other_requests_during_upload", "signed_prekey_checks", "stray_iq_during_upload"]
 TIMEOUT = {"quick": 600, "thorough": 7200}
 
 EVENTS = ["login", "ask-keys", "ask-keys-overlap", "other-requests-during-upload", "ask-keys-lost-reply", "ask-keys-error", "disconnect", "restart", "peer-first-message", "replay-first-message",
-          "login-lost-reply", "server-closes"]
+          "login-lost-reply", "server-closes", "stray-iq-during-upload"]
 
 
 def hexid(b):
@@ -270,6 +270,27 @@ def one_history(acc, seed, tag, batch=None):
                     W.server_close(A)
                     run_actions([])
                     nontriv = True
+            elif ev == "stray-iq-during-upload":
+                # while an upload is unanswered an <iq> arrives that carries the upload's id but is no reply (a request of the
+                # server's, or a stanza whose type is missing / unknown): it confirms nothing; the real answer is then lost
+                if not c.ready():
+                    continue
+                W.server.delay_upload_reply.add(A)
+                W.server.ask_for_keys(A, r.randint(0, 5))
+                run_actions([])
+                srv_acc_ = W.server.accounts.get(c.jid)
+                up_id = srv_acc_.uploads[-1]["id"] if srv_acc_ and srv_acc_.uploads and W.server.delayed_results.get(A) else None
+                W.server.delay_upload_reply.discard(A)
+                if up_id is not None:
+                    ty = r.choice(["get", "set", None, "probe"])
+                    acc.count("stray_iq_during_upload")
+                    acc.count("stray_iq_type:%s" % ty)
+                    W.server.to_client(A, ("iq", dict({"id": up_id, "from": "s.whatsapp.net", "xmlns": "urn:xmpp:ping"}, **({"type": ty} if ty else {})), [], None))
+                    run_actions([])
+                    nontriv = True
+                W.server.delayed_results.pop(A, None)
+                W.server_close(A)
+                run_actions([])
             elif ev == "disconnect":
                 if c.connected:
                     run_actions([{"op": "disconnect", "who": A}])
